@@ -35,7 +35,7 @@ def gen_doc(rng, cls):
 
     n = rng.choice([0, 1, 3, 10, 30])
     objs = []
-    t = rng.choice([0, 500, -200])
+    t = rng.choice([0, 500, -200, -5000])  # lead-in objects at negative times
     only = {"hits_only": "hit", "holds_only": "hold"}.get(cls)
     for _ in range(n):
         t += rng.choice([0, 100, 250, 333])
@@ -61,7 +61,7 @@ def gen_doc(rng, cls):
     for i in range(0 if cls == "empty_sections" else rng.choice([0, 2, 6])):
         sv = {}
         if rng.random() < 0.9:
-            sv["StartTime"] = rng.randint(0, 20000)
+            sv["StartTime"] = rng.randint(-3000, 20000)  # also ahead of the first timing point
         if not (cls == "omitted_keys" and rng.random() < 0.3):
             sv["Multiplier"] = rng.choice([0.5, 1, 1.5, 2.25])
         svs.append(sv)
